@@ -292,6 +292,9 @@ class PyObj(PyNative):
 def literal_eval(E, s):
     import ast as _ast
 
+    if isinstance(s, SymStr):
+        # A-SER: ast.literal_eval(str(v)) == v for ints / None / lists / tuples of ints
+        return s.value
     if is_sym(s) or not isinstance(s, str):
         raise Unsupported("literal_eval of non-concrete string")
     try:
